@@ -157,9 +157,22 @@ def bounded(rep, tier, seed):
         def verif_rounded_m(bruttolohn_m: float) -> float:
             return bruttolohn_m * 0.37
 
+        # ... and a user rule whose name merely ends in _id (not one of the grouping identifiers)
+        def verif_payer_id(bruttolohn_m: float) -> float:
+            return bruttolohn_m + 1.0
+
         p_user = dict(e.params)
         p_user["verif_grp"] = {"rounding": {"verif_rounded_m": {"base": 1, "direction": "up", "to_add_after_rounding": 7}}}
-        f_user = [*([e.functions] if isinstance(e.functions, dict) else list(e.functions)), verif_rounded_m]
+        f_user = [*([e.functions] if isinstance(e.functions, dict) else list(e.functions)), verif_rounded_m, verif_payer_id]
+        for kw in ({}, {"debug": True}):
+            try:
+                r, _ = apirel.simulate(e, pop, targets=["verif_payer_id", defaults[0]], functions=f_user, params=p_user, **kw)
+                n_eval += 1
+                distinct.add((d, "user-target-named-_id", json.dumps(kw)))
+                if "verif_payer_id" not in r.columns or not numpy.array_equal(r["verif_payer_id"].to_numpy(), pop["bruttolohn_m"].to_numpy() + 1.0):
+                    bad.append(f"{d}: requested user target verif_payer_id {kw}: returned columns {list(r.columns)[:8]} -- the target is missing or wrong")
+            except Exception as ex:  # noqa: BLE001
+                bad.append(f"{d}: user target verif_payer_id {kw}: call fails: {ex!r}"[:300])
         want_r = numpy.ceil(pop["bruttolohn_m"].to_numpy() * 0.37) + 7
         for tg, kw in ((["verif_rounded_m"], {}), (["verif_rounded_m", defaults[0]], {}), (["verif_rounded_m"], {"debug": True}), ([defaults[-1], "verif_rounded_m"], {})):
             try:
